@@ -85,9 +85,10 @@ PROPERTY SaturatedStays
   Whos <- cWhos
   Channels <- cChannels
   MaxReloads = {p.get('maxreloads', 1)}
+  MaxAdopt = {p.get('maxadopt', 0 if p.get('patch_limits') else 1)}
 INIT Init
 NEXT Next
-VIEW View
+VIEW {"ViewH" if p.get("histview") else "View"}
 CONSTRAINT Bound
 {inv if mode in ("mc", "both") else ""}
 {"ACTION_CONSTRAINT Emit" if mode in ("emit", "both") else ""}
@@ -95,14 +96,22 @@ CHECK_DEADLOCK FALSE
 """
 
 
-def make_hash(table, probe=7):
+def make_hash(table, probe=7, size=None):
+    """the table-driven hash function handed to the real object.  With `size` (the modulus the structure reduces by) every third / fourth
+    table is lifted by a multiple of size: beyond 64 bits resp. negative - a hand-written strategy may return any integer, and the
+    positions (hash mod size, which is all the model knows) stay the same"""
+    lift = 0
+    if size:
+        sel = zlib.crc32(repr(sorted(table.items())).encode()) % 4
+        lift = {2: size * 2 ** 64, 3: -size * (2 ** 64 + 3)}.get(sel, 0)
+
     def hf(key, depth=1):
         if isinstance(key, (bytes, bytearray)):
             key = bytes(key).decode()
         if key in table:
             v = table[key]
-            return [v[i % len(v)] for i in range(depth)]
-        return [probe] * depth
+            return [v[i % len(v)] + lift for i in range(depth)]
+        return [probe + lift] * depth
 
     return hf
 
@@ -191,9 +200,21 @@ class Ctx:
                 return f.remove_alt(f.hashes(key), o[3])
             return f.remove(key, o[3])
         if o[0] == "clear":
+            self.nbase[o[1]] = 0
             return f.clear()
         if o[0] == "rt":
             objs[o[1]] = self.reload(f, o[2])
+            return None
+        if o[0] in ("uni", "int"):      # the result of the binary operation becomes filter o[1]
+            r = objs["A"].union(objs["B"]) if o[0] == "uni" else objs["A"].intersection(objs["B"])
+            if r is None:
+                raise RuntimeError("binary operation on compatible operands returned None")
+            if getattr(f, "is_on_disk", False):
+                self.release({"x": f})
+            objs[o[1]] = r
+            self.nbase[o[1]] = r.elements_added
+            if r.elements_added < 0:       # the documented "cannot estimate: every cell is set" value; such a result cannot be exported (known finding D25)
+                self.sentinel = True
             return None
 
     def reload(self, f, channel):
@@ -230,7 +251,9 @@ class Ctx:
 
     def build(self, table, hist):
         self.opno = 0
-        hf = strategy_fn(self.strategy) if self.strategy else make_hash(table)
+        self.nbase = {"A": 0, "B": 0}      # counter of an adopted union / intersection result at adoption (an estimate)
+        self.sentinel = False
+        hf = strategy_fn(self.strategy) if self.strategy else make_hash(table, size=self.M)
         if self.strategy == "fnv":
             hf = None  # the library default
         kinds = self.p.get("kinds", ("mem", "mem"))
@@ -261,6 +284,10 @@ class Ctx:
             objs, hf = self.build(table, hist)
         except Exception as exc:  # noqa  a call of the history raised
             t.extra["skipped_history_raised"] = t.extra.get("skipped_history_raised", 0) + 1
+            return
+        if self.sentinel:      # the history adopted a result whose counter is the -1 sentinel: its states cannot be observed through bytes()
+            t.extra["skipped_history_unexportable_result"] = t.extra.get("skipped_history_unexportable_result", 0) + 1
+            self.release(objs)
             return
         try:
             self._edge(t, table, hf, objs, hist, o, exp, e["ret"])
@@ -306,6 +333,18 @@ class Ctx:
             t.fail("C16" if self.counting else "C01", "C16.returns" if self.counting else "C01.crash", ENGINE, rp(raised=repr(raised)), sig)
             return
         t.ok("C16", "C16.returns")
+        if o[0] in ("uni", "int"):
+            full = self.sentinel
+            if t.focus == "C05":
+                try:
+                    bytes(f)
+                    exported = True
+                except Exception as exc:  # noqa
+                    exported = repr(exc)
+                t.check(exported is True, "C05", "C05.result_exportable", ENGINE, lambda: rp(raised=exported, elements_added=f.elements_added),
+                        dict(sig, state="every_cell_set_counter_is_minus_one" if full else "ordinary"))
+            if full:
+                return
         obs = {"A": self.observe(A), "B": self.observe(B)}
         rp2 = lambda **kw: rp(observed=obs, ret=ret, **kw)  # noqa
         for who in ("A", "B"):
@@ -316,12 +355,30 @@ class Ctx:
             else:
                 miss = [k for k in self.keys if ex["out"][k] > 0 and not (ob["est"][k] and ob["in"][k])]
                 t.check(not miss, "C01", "C01.present", ENGINE, lambda: rp2(who=who, missing=miss), dict(sig, kind="disk" if objs[who].is_on_disk else "mem"))
+            want_n = ex["n"] + (self.nbase[who] if ex["nest"] else 0)
             if not ex["sat"]:  # the counter's documented meaning is stated below saturation
-                t.check(ob["n"] == ex["n"], "C14", "C14.count.cbloom" if self.counting else "C14.count.bloom", ENGINE, lambda: rp2(who=who), sig)
+                t.check(ob["n"] == want_n, "C14", "C14.count.cbloom" if self.counting else "C14.count.bloom", ENGINE, lambda: rp2(who=who), sig)
             if self.counting:
                 t.check(ob["cells"] == ex["cells"], "C16", "C16.no_half_update", ENGINE, lambda: rp2(who=who), sig)
-            if ob["cells"] != ex["cells"] or ob["n"] != ex["n"]:
+            if ob["cells"] != ex["cells"] or (ob["n"] != want_n and not (ex["nest"] and ex["sat"])):
                 t.add_drift(ENGINE, {"table": table, "history": hist, "op": o, "who": who, "expected": ex, "observed": ob})
+        if t.focus == "C19":
+            # clear() = fresh, judged by what happens afterwards: a newly constructed filter fed only the calls made since the last clear()
+            full = list(hist) + [o]
+            cut = max((i for i, op in enumerate(full) if op[0] == "clear" and op[1] == w), default=None)
+            if cut is not None and not any(op[0] in ("uni", "int") for op in full[cut + 1:]):
+                g = {w: self.new("disk" if f.is_on_disk else "mem", hf)}
+                try:
+                    for op in full[cut + 1:]:
+                        if op[1] == w:
+                            self.apply(g, op)
+                    og = self.observe(g[w])
+                    same = og == obs[w] and bytes(g[w]) == bytes(f)
+                    if f.is_on_disk:
+                        same = same and open(f._filepath, "rb").read() == open(g[w]._filepath, "rb").read()
+                    t.check(same, "C19", "C19.clear_then_behaves_fresh.bloom", ENGINE, lambda: rp2(fresh_object=og, since_clear=full[cut + 1:]), sig)
+                finally:
+                    self.release(g)
         if o[0] == "rt":
             ob = obs[w]
             t.check(ob["est"] == before["est"] and ob["in"] == before["in"], "C05", "C05.queries.bloom", ENGINE, rp2, dict(sig, channel=o[2]))
@@ -577,6 +634,11 @@ def profiles(tier, seed, light=False):
             P.append(dict(cb, M=M, K=K, H=H, ntables=8))
         for (M, K, H) in [(3, 2, 5), (2, 1, 3), (4, 3, 7)]:
             P.append(dict(cb, M=M, K=K, H=H, ntables=8, cellmax=3, totmax=5, amts=[1, 2, 4, 7], maxn=8, maxdepth=4, patch_limits=True, keys=["a", "b"]))
+    # every HISTORY (no state merging) of the smallest instances: behaviour after clear() / reload for every preceding history
+    hv = dict(base, M=3, K=2, H=5, ntables=1, whos=["A"], keys=["a", "b"], histview=True, maxadopt=0, maxn=5)
+    P.append(dict(hv, kinds=("disk", "mem"), maxdepth=5))
+    P.append(dict(hv, kinds=("mem", "mem"), maxdepth=4 if tier == "quick" else 5))
+    P.append(dict(hv, counting=True, amts=[1, 2], cellmax=1000, totmax=1000, maxdepth=4 if tier == "quick" else 5, channels=["bytes", "file"]))
     # the strategies the properties quantify over, on real text / bytes keys (table = the strategy's own answers)
     strat = ["fnv", "md5", "sha256", "deco_int", "handwritten"] if tier == "quick" else ["fnv", "md5", "sha256", "deco_int", "deco_bytes", "handwritten"]
     geos = [(7, 5), (9, 2)] if tier == "quick" else [(3, 2), (7, 5), (8, 2), (9, 2), (17, 2), (13, 5)]
@@ -608,7 +670,7 @@ def run(focus, tier, seed):
     total = Tally(focus)
     jobs = []
     for p in profiles(tier, seed, focus in ("C05", "C14", "C19")):
-        if focus in FOCUS_FILTER and not FOCUS_FILTER[focus](p):
+        if (focus in FOCUS_FILTER and not FOCUS_FILTER[focus](p)) or (p.get("histview") and focus not in ("C19", "C05", "C14")):
             continue
         tabs = p["tables"]
         const = {k: v for k, v in p.items() if k != "tables"}
@@ -623,7 +685,7 @@ def run(focus, tier, seed):
     for p in profiles(tier, seed, focus in ("C05", "C14", "C19")):
         if focus in FOCUS_FILTER and not FOCUS_FILTER[focus](p):
             continue
-        if p.get("exhaustive") or (tier == "quick" and focus in ("C05", "C14", "C19")):
+        if p.get("exhaustive") or p.get("histview") or (tier == "quick" and focus in ("C05", "C14", "C19")):
             continue
         ps = dict(p, maxdepth=14, maxn=5, maxreloads=2)
         const = {k: v for k, v in ps.items() if k != "tables"}
